@@ -30,6 +30,8 @@ func VerifAverages() {
 		base = int(specPIP10) - 3
 	}
 	zeroAt := vrt.Choose("zeroRateAt", H+1) // the first asset is recorded with rate 0 at this height (0 = nowhere)
+	val := make([][2]uint64, H+2) // the recorded samples, for the reference value below
+	has := make([][2]bool, H+2)
 	// ---- the chain's rate table (committed, as after syncing H blocks)
 	for h := 1; h <= H; h++ {
 		rated[h] = vrt.Choose("rated", 2) == 1
@@ -44,6 +46,7 @@ func VerifAverages() {
 			if ti == 0 && h == zeroAt {
 				v = 0 // a recorded 0 (an out-of-band asset from 2.0.2 on) is a sample too
 			}
+			val[h][ti], has[h][ti] = v, true
 			if _, err := db.Exec("INSERT INTO pn_rate (height, token, value) VALUES ($1, $2, $3)", base+h, t.String(), v); err != nil {
 				panic(err)
 			}
@@ -67,6 +70,28 @@ func VerifAverages() {
 		fresh.Sync = new(pegnet.BlockSync)
 		avgB := fresh.GetPegNetRateAverages(ctx, last).(map[fat2.PTicker]uint64)
 		nRated++
+		// ---- absolute reference: the samples of an asset are its recorded rates in the block window
+		// [last-P+1, last]; the average is unavailable (0) unless at least AverageRequired of the P
+		// blocks carry a NON-ZERO rate for it, otherwise the mean of the samples held
+		L := int(last) - base
+		for ti, t := range tickers {
+			var sum, n, nonzero uint64
+			for h := L - int(P) + 1; h <= L; h++ {
+				if h >= 1 && h <= H && has[h][ti] {
+					n++
+					sum += val[h][ti]
+					if val[h][ti] != 0 {
+						nonzero++
+					}
+				}
+			}
+			want := uint64(0)
+			if nonzero >= AverageRequired && n > 0 {
+				want = sum / n
+			}
+			vrt.Assert("C13.average-unavailable-unless-enough-priced-blocks-else-the-window-mean", avgA[t] == want && avgB[t] == want)
+			vrt.Assert("C07.average-is-the-mean-of-the-window-samples", avgA[t] == want && avgB[t] == want)
+		}
 		for _, t := range tickers {
 			vrt.ObserveU64(fmt.Sprintf("A%d_%s", c, t.String()), avgA[t])
 			vrt.ObserveU64(fmt.Sprintf("B%d_%s", c, t.String()), avgB[t])
